@@ -156,6 +156,9 @@ OPS = {
     "form-reserved-parameter": [M("pair", lambda s: (rename(s, "Potential-Form", "f(r,a)", "f(r,epsilon)"), setv(s, "Potential-Form", "f(r,epsilon)", "epsilon*r + 1"))),
                                 M("pair", lambda s: (rename(s, "Potential-Form", "f(r,a)", "f(r,pi)"), setv(s, "Potential-Form", "f(r,pi)", "pi*r + 1"))),
                                 M("eam", lambda s: (rename(s, "Potential-Form", "f(r,a)", "f(r,inf)"), setv(s, "Potential-Form", "f(r,inf)", "inf*r + 1")))],
+    # the expression library's symbols are case-insensitive: two parameters that differ only in case cannot both be bound
+    "form-parameters-differ-in-case": [M("pair", lambda s: (rename(s, "Potential-Form", "g(r, a, b)", "g(r, a, A)"), setv(s, "Potential-Form", "g(r, a, A)", "f(r, a) * A + pymath.sqrt(r)"))),
+                                       M("eam", lambda s: (rename(s, "Potential-Form", "f(r,a)", "f(r,R)"), setv(s, "Potential-Form", "f(r,R)", "R*r + 1")))],
     "form-numeric-parameter": [M("pair", lambda s: rename(s, "Potential-Form", "f(r,a)", "f(r,1)"))],
     "form-name-clash": [M("pair", lambda s: sec(s, "Potential-Form")[1].append(["sin(r)", "r"])), M("pair", lambda s: sec(s, "Potential-Form")[1].append(["if(r)", "r"]))],
     "form-same-label-other-arity": [M("pair", lambda s: sec(s, "Potential-Form")[1].append(["f(r)", "r"]))],
@@ -299,7 +302,11 @@ def main(prop, tier, seed):
             rnd = random.Random(seed)
             defs = ["as.polynomial 1 2 3", "sum(as.buck 1000 0.3 32, as.coul 1 -1)", ">=0 as.zero >1 product(as.constant 2, as.polynomial 1 1) >=2.5 as.zero",
                     "pow(as.polynomial 2 1, as.constant 2)", "trans(>0.5 as.lj 0.2 2.5, as.constant 0.25)", "sum(f 1.5)", "product(tf, g 1 2)",
-                    "spline(>0 as.zbl 13 13 >0.7 exp_spline >1.2 as.zero)", "sum(spline(as.bornmayer 900 0.3 >1.0 buck4_spline 1.4 >2.0 as.zero), as.constant 1)"]
+                    "spline(>0 as.zbl 13 13 >0.7 exp_spline >1.2 as.zero)", "sum(spline(as.bornmayer 900 0.3 >1.0 buck4_spline 1.4 >2.0 as.zero), as.constant 1)",
+                    # a modifier as the first / as the last sub-potential of a spline
+                    "spline(sum(as.buck 1000 0.3 0, as.constant 1) >=0.8 exp_spline >=1.4 as.zero)",
+                    "spline(>0 as.zbl 13 13 >0.7 exp_spline >1.2 sum(as.buck 1000 0.3 32, as.constant 0.5))",
+                    "spline(product(as.constant 2, as.bornmayer 900 0.3) >1.0 buck4_spline 1.4 >2.0 as.buck 0 1 32)"]
             for fam in TARGETS:
                 for dd in defs:
                     secs = base(fam)
